@@ -390,7 +390,20 @@ class DatasetWorld(object):
             if not labs:
                 return self._gen_mutation(rng)
             route = rng.choice(["ax_item", "ax_values", "set_axis", "attr", "set_axis_dict", "var_ax_item", "var_set_axis",
-                                "var_attr", "var_labels"])
+                                "var_attr", "var_labels", "set_axis_fn", "var_set_axis_fn"])
+            if route.endswith("_fn"):
+                if isinstance(labs[0], str):
+                    route = route.replace("_fn", "")
+                else:
+                    add = rng.choice([100, -50, 0.5])
+                    st0 = {"op": "relabel", "dim": d, "route": route, "add": add, "new": [x + add for x in labs]}
+                    if route.startswith("var_"):
+                        users = [k for k in keys if d in m.vars[k]["dims"]]
+                        if not users:
+                            st0["route"] = "set_axis_fn"
+                        else:
+                            st0["key"] = rng.choice(users)
+                    return st0
             st = {"op": "relabel", "dim": d, "route": route}
             if route.startswith("var_"):
                 users = [k for k in keys if d in m.vars[k]["dims"]]
@@ -534,7 +547,7 @@ class DatasetWorld(object):
             if what == "take":
                 if not labs:
                     return None
-                st["form"] = rng.choice(["axis", "dict", "dict2", "keepdims"])
+                st["form"] = rng.choice(["axis", "dict", "dict2", "keepdims", "tuple"])
                 st["idx"] = gen_label_index(rng, labs, allow_absent=False)
                 if st["form"] == "dict2" and len(dims) > 1:
                     d2 = rng.choice([x for x in dims if x != d])
@@ -589,6 +602,7 @@ class DatasetWorld(object):
             st["perturb"] = rng.random() < 0.5
         elif what == "ds_op_ds":
             st["fn"] = rng.choice(["add", "sub", "mul"])
+            st["drop_key"] = rng.random() < 0.3
         return st
 
     # ------------------------------------------------------------------ execution
@@ -844,6 +858,16 @@ class DatasetWorld(object):
             ds.set_axis({m.dims[d]["labels"][s["i"]]: new[s["i"]]}, axis=d)
         elif route == "attr":
             setattr(ds, d, arr)
+        elif route == "set_axis_fn":
+            add = s["add"]
+            if [x + add for x in m.dims[d]["labels"]] != new:
+                raise Skip("stale")
+            ds.set_axis(lambda x: x + add, axis=d)
+        elif route == "var_set_axis_fn":
+            add = s["add"]
+            if [x + add for x in m.dims[d]["labels"]] != new:
+                raise Skip("stale")
+            v.set_axis(lambda x: x + add, axis=d)
         elif route == "var_ax_item":
             v.axes[d][s["i"]] = new[s["i"]]
         elif route == "var_set_axis":
